@@ -6,6 +6,9 @@ package vecengine
 //
 // gBranchOf models the EventBranch table: the global branch ID recorded for an event.
 //@ ghost gBranchOf[hash.Event] int
+//@ // nOnDrop / nOnDbReset count the calls of the two optional callbacks
+//@ ghost nOnDrop int
+//@ ghost nOnDbReset int
 //@ funcfield Engine.crit
 //@   ensures true
 //@ // assumed of the persisted table (bytes round trip through idx.Validator.Bytes / BytesToValidator, proved under C32)
@@ -28,3 +31,54 @@ package vecengine
 //@ func (*Engine).BranchesInfo
 //@   requires vi != nil
 //@   ensures  result == vi.bi
+//@
+//@ funcfield Callbacks.OnDropNotFlushed
+//@   modifies nOnDrop
+//@   ghost nOnDrop = old(nOnDrop) + 1
+//@ funcfield Callbacks.OnDbReset
+//@   modifies nOnDbReset
+//@   ghost nOnDbReset = old(nOnDbReset) + 1
+//@
+//@ // DropNotFlushed forgets the cached branches info unconditionally (it may describe a dropped event or another
+//@ // validator group) and, if there are unflushed vector writes, drops them and tells the owner of the vector caches
+//@ func (*Engine).DropNotFlushed
+//@   requires vi != nil && vi.vecDb != nil
+//@   modifies vi.bi, gPend[vi.vecDb], gFlDropN, nOnDrop
+//@   ensures  [forget] vi.bi == nil
+//@   ensures  [dropped] gPend[vi.vecDb] == 0
+//@   ensures  [told] old(gPend[vi.vecDb]) != 0 && vi.callback.OnDropNotFlushed != nil ==> nOnDrop == old(nOnDrop) + 1 && gFlDropN == old(gFlDropN) + 1
+//@   ensures  [quiet] old(gPend[vi.vecDb]) == 0 ==> nOnDrop == old(nOnDrop) && gFlDropN == old(gFlDropN)
+//@
+//@ package github.com/Fantom-foundation/lachesis-base/kvdb/flushable
+//@ // assumed here, proved under C22: a new wrapper has no unflushed pairs
+//@ trusted func WrapWithDrop
+//@   requires parent != nil
+//@   ensures  fresh(result) && gPend[box(result, "*Flushable")] == 0
+//@ package github.com/Fantom-foundation/lachesis-base/kvdb/table
+//@ trusted func MigrateTables
+//@ package github.com/Fantom-foundation/lachesis-base/vecengine
+//@
+//@ // Reset switches to another validator group and database: nothing of the previous group's branches info survives
+//@ func (*Engine).Reset
+//@   requires vi != nil && db != nil && validators != nil
+//@   modifies vi.getEvent, vi.vecDb, vi.validators, vi.validatorIdxs, vi.bi, vi.table.EventBranch, vi.table.BranchesInfo, gPend[*], gFlDropN, nOnDrop, nOnDbReset
+//@   at call table.MigrateTables[1] modifies vi.table.EventBranch, vi.table.BranchesInfo
+//@   ensures  vi.bi == nil && vi.validators == validators && vi.getEvent == getEvent && vi.validatorIdxs == validators.cache.indexes && vi.vecDb != nil && gPend[vi.vecDb] == 0
+//@   ensures  vi.callback.OnDbReset != nil ==> nOnDbReset == old(nOnDbReset) + 1
+//@
+//@ // assumed: the persisted branches info (RLP) is what this engine stored for the current validator group
+//@ trusted func (*Engine).getBranchesInfo
+//@   requires vi != nil
+//@   ensures  result == nil || (biwf(result, len(vi.validators.values)) && fresh(result))
+//@ func newInitialBranchesInfo
+//@   requires valid(validators) && len(validators.values) <= 536870911
+//@   ensures  fresh(result) && biwf(result, len(validators.values)) && len(result.BranchIDCreatorIdxs) == len(validators.values)
+//@   ensures  forall(i, 0, len(validators.values), result.BranchIDCreatorIdxs[i] == i && result.BranchIDLastSeq[i] == 0 && len(result.BranchIDByCreators[i]) == 1 && result.BranchIDByCreators[i][0] == i)
+//@   loop 1 invariant 0 <= _k && _k <= len(branchIDCreators) && len(branchIDCreatorIdxs) == len(branchIDCreators) && forall(i, 0, _k, branchIDCreatorIdxs[i] == i)
+//@   loop 2 invariant 0 <= _k && _k <= len(branchIDByCreators) && forall(i, 0, _k, len(branchIDByCreators[i]) == 1 && branchIDByCreators[i][0] == i)
+//@   loop 2 invariant forall(i, 0, _k, !arrfresh(branchIDByCreators[i], _alloc) && arrfresh(branchIDByCreators[i], old(_alloc)))
+//@ func (*Engine).InitBranchesInfo
+//@   requires vi != nil && valid(vi.validators) && len(vi.validators.values) <= 536870911
+//@   modifies vi.bi
+//@   ensures  old(vi.bi) != nil ==> vi.bi == old(vi.bi)
+//@   ensures  old(vi.bi) == nil ==> biwf(vi.bi, len(vi.validators.values))
